@@ -43,3 +43,49 @@ Definition mz_all_registered : bool :=
    JsonRpcConnection::MessageHandler now; an unrecognised shape (None) is covered by the correspondence run only *)
 Definition mz_origin_rule_ok : Prop :=
   match f_mz_origin_rule with Some r => r = "claim_iff_sender_in_local_zone" | None => True end.
+
+(* ---------------------------------------------------------------- registrations, dominance, single-spot rules *)
+Fixpoint mz_strs_eqb (a b : list string) : bool :=
+  match a, b with
+  | [], [] => true
+  | x :: a', y :: b' => String.eqb x y && mz_strs_eqb a' b'
+  | _, _ => false
+  end.
+
+Fixpoint mz_str_nodup_b (l : list string) : bool :=
+  match l with
+  | [] => true
+  | x :: r => negb (existsb (String.eqb x) r) && mz_str_nodup_b r
+  end.
+
+(* one row of the handler table per use of the registration macro, no registration that bypasses the macro *)
+Definition mz_registrations_ok : bool :=
+  mz_strs_eqb (map fst f_mz_registrations) (map mz_rmethod mz_table)
+  && mz_str_nodup_b (map mz_rmethod mz_table)
+  && Nat.eqb (List.length f_mz_registrations) f_mz_macro_uses
+  && Nat.eqb f_mz_other_registrations 0.
+
+(* handlers for which the translator cannot show that every refusal check precedes every effect: listed, with the verdict.
+   event::ExecuteCommand: ExecuteCheckFromQueue installs Checkable::ExecuteCommandProcessFinishedHandler (reset on return)
+   before it looks at accept_commands; its origin checks do precede everything. *)
+Definition mz_dom_exceptions : list (string * string) := [("event::ExecuteCommand", "origin_only")].
+
+Definition mz_row_has_no_check (r : mz_row) : bool :=
+  negb (mz_rep r) && match mz_rpat r with MzPNone => true | _ => false end
+  && match mz_rflag r with MzFNone => true | _ => false end.
+
+Definition mz_dom_row_ok (r : mz_row) : bool :=
+  match mz_assoc (mz_rmethod r) f_mz_dominance with
+  | Some d => String.eqb d "all"
+              || (String.eqb d "no_check" && mz_row_has_no_check r)
+              || existsb (fun e => String.eqb (fst e) (mz_rmethod r) && String.eqb (snd e) d) mz_dom_exceptions
+  | None => false
+  end.
+Definition mz_dom_ok : bool := forallb mz_dom_row_ok mz_table.
+
+Definition mz_rule_is (f : option string) (name : string) : Prop :=
+  match f with Some r => r = name | None => True end.
+Definition mz_forward_rule_ok : Prop := mz_rule_is f_mz_exec_forward_rule "target_in_subtree_then_relay_to_target_zone".
+Definition mz_relay_rule_ok : Prop := mz_rule_is f_mz_relay_rule "adjacent_zones_not_back_master_only".
+Definition mz_update_object_zone_rule_ok : Prop :=
+  mz_rule_is f_mz_update_object_zone_rule "refuse_unknown_nonempty_zone_otherwise_unused".
